@@ -264,3 +264,29 @@ func NewStore(kind string, clk *VClock, abs, idle time.Duration) oidc.SessionSto
 	}
 	return oidc.NewMemoryStore(clk.OIDCClock(), abs, idle)
 }
+
+// RealTimeRedis makes the process-wide miniredis follow the wall clock until stop is called.
+func RealTimeRedis() (stop func()) {
+	mr, _ := Redis()
+	mr.FlushAll()
+	done := make(chan struct{})
+	finished := make(chan struct{})
+	go func() {
+		defer close(finished)
+		last := time.Now()
+		mr.SetTime(last)
+		tk := time.NewTicker(20 * time.Millisecond)
+		defer tk.Stop()
+		for {
+			select {
+			case <-done:
+				return
+			case now := <-tk.C:
+				mr.SetTime(now)
+				mr.FastForward(now.Sub(last))
+				last = now
+			}
+		}
+	}()
+	return func() { close(done); <-finished }
+}
